@@ -7,6 +7,7 @@ import (
 	"github.com/sirupsen/logrus"
 	"io"
 	"strings"
+	"time"
 
 	"github.com/spali/go-rscp/rscp"
 	slicereader "github.com/spali/go-slicereader"
@@ -294,6 +295,38 @@ func init() {
 			buildCase(cw, []interface{}{rscp.BAT_REQ_DATA, t, "x"}, "untyped tag after JSON with explicit type, nested with value")
 			buildCase(cw, []interface{}{rscp.BAT_REQ_DATA, t, g.byType[rscp.None][0]}, "untyped tag after JSON with explicit type, nested")
 		}
+		// the index child of a container anywhere among its children: children keep the order of the arguments
+		for _, v := range []struct{ c, idx, r1, r2 rscp.Tag }{{rscp.BAT_REQ_DATA, rscp.BAT_INDEX, rscp.BAT_REQ_RSOC, rscp.BAT_REQ_STATUS_CODE},
+			{rscp.PVI_REQ_DATA, rscp.PVI_INDEX, rscp.PVI_REQ_ON_GRID, rscp.PVI_REQ_STATE}, {rscp.PM_REQ_DATA, rscp.PM_INDEX, rscp.PM_REQ_POWER_L1, rscp.PM_REQ_POWER_L2}} {
+			buildCase(cw, []interface{}{v.c, v.r1, v.idx, uint16(1), v.r2}, "index child in the middle")
+			buildCase(cw, []interface{}{v.c, v.r1, v.r2, v.idx, uint16(1)}, "index child last")
+			buildCase(cw, []interface{}{v.c, v.idx, uint16(1), v.r1, v.idx, uint16(2), v.r2}, "index child twice")
+		}
+		// arguments of Go types the tables do not know (a time.Duration, a json.Number, a pointer) under tags of every data
+		// type, time stamps first: the item's value is the argument itself
+		{
+			var tags []rscp.Tag
+			tags = append(tags, g.byType[rscp.Timestamp]...)
+			for _, dt := range definedTypes {
+				if ts := g.byType[dt]; len(ts) > 0 && dt != rscp.Timestamp && dt != rscp.None && dt != rscp.Container {
+					tags = append(tags, ts[0])
+				}
+			}
+			n := 15
+			for _, t := range tags {
+				for _, v := range []interface{}{15 * time.Minute, time.Duration(0), json.Number("7"), &n, time.Month(3)} {
+					buildCase(cw, []interface{}{t, v}, "argument of a foreign Go type")
+					if cs := g.byType[rscp.Container]; len(cs) > 0 {
+						buildCase(cw, []interface{}{cs[0], t, v, t, v}, "argument of a foreign Go type, nested")
+					}
+				}
+			}
+		}
+		// lists that are nil slices are lists without arguments
+		buildsCase(cw, [][]interface{}{nil}, "one nil list")
+		buildsCase(cw, [][]interface{}{{g.byType[rscp.None][0]}, nil, {g.byType[rscp.None][0]}}, "nil list in the middle")
+		buildsCase(cw, [][]interface{}{{g.byType[rscp.None][0]}, nil}, "nil list last")
+		buildsCase(cw, [][]interface{}{nil, {g.byType[rscp.None][0]}}, "nil list first")
 		// a slice as an argument (a forgotten `...`), alone and among others: a value where a tag is expected
 		for _, inner := range [][]interface{}{{}, {g.byType[rscp.None][0]}, {g.byType[rscp.CString][0], "v"}, {g.byType[rscp.CString][0]}, {rscp.BAT_REQ_DATA, g.byType[rscp.None][0]}} {
 			buildCase(cw, []interface{}{inner}, "slice-as-argument alone")
